@@ -936,6 +936,67 @@ async fn unlock_part(cx: &mut Cx<'_>, folders: &[Folder], owner: &Identity) {
         "unlocked": matrix,
     }));
 
+    // sequences on ONE access point: lock / unlock(own) / unlock(another folder's password) in
+    // every order up to length 3 (+ sampled length 4); every unlock with a foreign password is
+    // refused whatever came before, and writing works exactly when the last effective step was
+    // an unlock with the own password
+    if folders.len() >= 2 {
+        let fi = cx.rng.usize(folders.len());
+        let f = &folders[fi];
+        let g = &folders[(fi + 1) % folders.len()];
+        let right = AccessKey::Password(f.password.clone());
+        let wrong = AccessKey::Password(g.password.clone());
+        let mut seqs: Vec<Vec<u8>> = vec![];
+        for len in 1..=3usize {
+            for code in 0..3usize.pow(len as u32) {
+                let mut c = code;
+                seqs.push((0..len).map(|_| { let x = (c % 3) as u8; c /= 3; x }).collect());
+            }
+        }
+        for _ in 0..6 {
+            seqs.push((0..4).map(|_| cx.rng.usize(3) as u8).collect());
+        }
+        for seq in seqs {
+            let mut ap = Ap::new(f.vault.clone());
+            let mut open = false;
+            let names: Vec<&str> = seq.iter().map(|x| ["lock", "unlock_own", "unlock_foreign"][*x as usize]).collect();
+            let replay = json!({"part": "unlock sequences", "sequence": names, "vault": {"cipher": f.cipher.to_string(), "kdf": f.kdf.to_string(), "password": f.password.expose_secret()}, "foreign_password": g.password.expose_secret()});
+            let mut h = Fnv::new();
+            h.str("unlock_seq").str(&f.cipher.to_string()).bytes(&seq);
+            cx.rep.case(h.finish(), seq.contains(&2));
+            cx.rep.count("unlock_sequences", 1);
+            for (k, step) in seq.iter().enumerate() {
+                match step {
+                    0 => {
+                        ap.lock();
+                        open = false;
+                    }
+                    1 => {
+                        if ap.unlock(&right).await.is_err() {
+                            cx.rep.violation("C10:unlock:sequence:own_password_refused", &format!("step {k} of {names:?}: unlock with the own password failed"), replay.clone());
+                        }
+                        open = true;
+                    }
+                    _ => {
+                        cx.rep.count("foreign_unlocks_in_sequences", 1);
+                        if open {
+                            cx.rep.count("foreign_unlocks_on_an_unlocked_folder", 1);
+                        }
+                        if ap.unlock(&wrong).await.is_ok() {
+                            cx.rep.violation("C10:unlock:sequence:other_password_accepted", &format!("step {k} of {names:?}: unlock with another folder's password succeeded (folder was {} before)", if open { "unlocked" } else { "locked" }), replay.clone());
+                        }
+                        open = false;
+                    }
+                }
+                let wrote = ap.create_secret(&secret_row("seq")).await.is_ok();
+                if wrote != open {
+                    cx.rep.violation(if wrote { "C10:unlock:sequence:write_accepted_while_locked" } else { "C10:unlock:sequence:write_refused_while_unlocked" }, &format!("after step {k} of {names:?} create_secret -> {wrote}, the folder should be {}", if open { "unlocked" } else { "locked" }), replay.clone());
+                    break;
+                }
+            }
+        }
+    }
+
     // the stored meta blob decrypts to the VaultMeta, with the derived key
     for f in folders {
         if let (Ok(k), Some(meta)) = (derive_vault_key(&f.vault, &f.password).await, f.vault.header().meta()) {
